@@ -7,8 +7,9 @@ LEVEL = "proof"
 EXPLANATION = ('Proof that one AES round (soft T-table implementation) equals FIPS-197 SubBytes/ShiftRows/MixColumns/AddRoundKey column by column for all 2^128 states, that the four generator / hash primitives apply the specified keys and lane directions per 64-byte step, and (thorough) that the fused hashAndFill equals hash followed by fill.')
 TRUSTED = ["suites/common/spec_aes.h (FIPS-197 round oracle)", "hardware AES instructions (AESENC/AESDEC, ARM, POWER) compute the FIPS-197 round: assumed",
            "asm/program_loop_store_*aes*.inc, program_soft_aes_*.inc (hand-written assembly)"]
-ASSUMPTIONS = []
-NOT_DECIDED = []
+ASSUMPTIONS = ["buffer sizes below 2^50 bytes in the progress obligations (pointer offsets have 52 bits with --object-bits 12; RandomX: 2 MiB)"]
+NOT_DECIDED = ["hashAndFill == hash then fill as one obligation over a whole 4096-byte buffer (attempt obligation; the per-block step obligations and the visit-once schedule are decided)",
+               "loads from the 64-byte state / hash objects in the progress obligations are not bounds-checked by CBMC (pointer checks are off there; constant offsets 0..48)"]
 INC = ["@suites/common"]
 SOFT = {"cxx": XS.SOFT_AES, "out": "soft.c", "header": True}
 
@@ -28,10 +29,12 @@ AESREP = ["soft_aesenc", "soft_aesdec"]
 
 
 def progress(name, fn, entry, loops, **kw):
-    o = {"name": name, "files": [AH(loops), "harness_aes_hash.c"], "incdirs": INC, "defines": DEFS + ["PROGRESS=1"], "entry": entry, "enforce": fn,
-         "replace": AESREP + ["rx_load_vec_i128", "rx_store_vec_i128"], "loop_contracts": True, "cbmc_flags": ["--object-bits", "12"],
-         "checks": ["--bounds-check", "--pointer-check", "--div-by-zero-check", "--undefined-shift-check", "--signed-overflow-check"],
-         "expect_classes": ["loop_invariant_step", "precondition"], "expect_min": 20, "timeout": 1500}
+    o = {"name": name, "files": [{"cxx": XS.AES_HASH_PROGRESS, "out": "ah.c", "header": True, "loops": loops}, "harness_aes_hash.c"], "incdirs": INC, "defines": DEFS + ["PROGRESS=1"], "entry": entry, "enforce": fn,
+         "replace": AESREP + ["rxv_buf_load", "rxv_buf_store"], "loop_contracts": True, "cbmc_flags": ["--object-bits", "12"],
+         # no CBMC pointer checks here: the running pointer legitimately leaves the 16-byte stand-in object of the base+extent model
+         # (every buffer access is checked by the accessor contracts instead; stores to the 64-byte state / hash objects by the frame)
+         "checks": ["--no-pointer-check", "--no-pointer-primitive-check", "--bounds-check", "--div-by-zero-check", "--undefined-shift-check", "--signed-overflow-check"],
+         "expect_classes": ["loop_invariant_step", "precondition", "postcondition"], "expect_min": 20, "timeout": 1800, "mem_gb": 12, "weight": 3, "backend": "kissat"}
     o.update(kw)
     return o
 
@@ -48,9 +51,11 @@ OBLIGATIONS += [
     progress("fill4r_progress_every_size", "fillAes4Rx4", "h_fill4r", [{"function": "fillAes4Rx4", "expect_loops": 1, "loops": {"0": "RXV_FILL_LOOP_INVARIANT"}}]),
     progress("hash1r_progress_every_size", "hashAes1Rx4", "h_hash1r", [{"function": "hashAes1Rx4", "expect_loops": 1, "loops": {"0": "RXV_HASH_LOOP_INVARIANT"}}]),
     progress("hash_and_fill_visits_each_block_once", "hashAndFillAes1Rx4", "h_hashfill",
-             [{"function": "hashAndFillAes1Rx4", "expect_loops": 2, "loops": {"1": "RXV_HASHFILL_LOOP_INVARIANT"}}], unwindset=["hashAndFillAes1Rx4.0:3"]),
+             [{"function": "hashAndFillAes1Rx4", "expect_loops": 2, "loops": {"1": "RXV_HASHFILL_LOOP_INVARIANT"}}], pre_unwindset=["hashAndFillAes1Rx4.1:3"],
+             replay={"prog": "replay_hash_and_fill.cpp", "sources": "lib", "flags": ["-O1", "-maes"], "no_args": True}),   # the two-pass for loop (back edge after the while loop's) is unrolled before the contract instrumentation
     step("fill1r_blocks_equal_spec_3_2", "h_step_fill1r"),
     step("fill4r_blocks_equal_spec_3_3", "h_step_fill4r"),
     step("hash1r_equals_spec_3_4", "h_step_hash1r"),
-    step("hash_and_fill_equals_hash_then_fill_4096", "h_step_hashfill", unwind=4100, tier="thorough", timeout=3600),
+    # 64 unrolled blocks: ran 45 min and then exceeded the object table (--object-bits 12); kept as an attempt, listed as not decided
+    step("hash_and_fill_equals_hash_then_fill_4096", "h_step_hashfill", unwind=4100, tier="attempt", timeout=7200, cbmc_flags=["--object-bits", "16"]),
 ]
